@@ -1,14 +1,15 @@
 #!/bin/sh
-# applies every kept seeded change to /repo in turn, runs the quick check of its property, undoes it.
+# applies every kept seeded change to /repo (or $REPO, a copy) in turn, runs the quick check of its property, undoes it.
 # prints one line per seed: CAUGHT / MISSED / NOAPPLY
-cd /repo || exit 2
-git diff --quiet || { echo "/repo not clean"; exit 2; }
+R="${REPO:-/repo}"
+cd "$R" || exit 2
+git diff --quiet || { echo "$R not clean"; exit 2; }
 for d in /verif/seeded/*/; do
   id=$(basename "$d"); prop=${id%%-*}
   [ -f "$d/patch.diff" ] || continue
   P="$d/patch.diff"; [ -f "$d/patch.ported-to-fixed-tree.diff" ] && P="$d/patch.ported-to-fixed-tree.diff"
   if ! git apply "$P" 2>/dev/null; then echo "$id NOAPPLY"; continue; fi
-  out=$(cd /verif && FDCHECK_NO_EVIDENCE=1 ./bin/fdcheck -prop "$prop" -noselftest 2>&1)
+  out=$(cd /verif && FDCHECK_NO_EVIDENCE=1 ./bin/fdcheck -repo "$R" -prop "$prop" -noselftest 2>&1)
   if echo "$out" | grep -q "^VIOLATION"; then echo "$id CAUGHT $(echo "$out" | grep '\[key ' | head -1 | sed 's/.*\[key //')"; else echo "$id MISSED"; fi
   git checkout -q -- . ; git clean -fdq -- . 2>/dev/null
 done
